@@ -1256,6 +1256,257 @@ Lemma new_steps_eq li fs c :
          Rename (FIndexTmp c) FIndex]).
 Proof. unfold new_steps, index_steps. cbn [save map filter app]. now rewrite shuffle_nil. Qed.
 
+(* ---------- initialisation interrupted any number of times ---------- *)
+Section AtomicWrite.
+Variables (t q : fpath) (a : atom) (fs : FS).
+Hypothesis Htq : t <> q.
+Hypothesis Hnone : files fs t = None.
+Let aw := [Create t; Write t a; Close t; Rename t q].
+
+Lemma aw_final :
+  files (apply aw fs) q = Some (mkFile [a] false) /\ files (apply aw fs) t = None /\
+  forall p, p <> q -> p <> t -> files (apply aw fs) p = files fs p.
+Proof.
+  unfold aw, apply. cbn [fold_left apply1]. rewrite Hnone.
+  cbn [files]. rewrite upd_same. cbn [files fcontent fro app]. rewrite upd_same.
+  cbn [files]. split; [|split].
+  - rewrite upd_other by (intro E; apply Htq; now symmetry). apply upd_same.
+  - apply upd_same.
+  - intros p H1 H2. now rewrite !upd_other by assumption.
+Qed.
+
+Lemma aw_prefix k p : (k < 4)%nat -> p <> t -> files (apply (firstn k aw) fs) p = files fs p.
+Proof.
+  intros Hk Hp. apply apply_frame. intros m Hin.
+  assert (Hm : In m [Create t; Write t a; Close t]).
+  { unfold aw in Hin. destruct k as [|[|[|[|k]]]]; try lia; cbn in Hin; cbn; tauto. }
+  cbn in Hm. intro Ht.
+  destruct Hm as [<-|[<-|[<-|[]]]]; cbn in Ht; try contradiction; now subst p.
+Qed.
+
+Lemma aw_all k : (4 <= k)%nat -> firstn k aw = aw.
+Proof. intro Hk. apply firstn_all2. unfold aw. simpl. lia. Qed.
+End AtomicWrite.
+
+(* a directory in the middle of (re-)initialisation: no blobs yet; oci-layout and index.json
+   each absent or complete; temporaries of future attempts do not exist *)
+Definition InitOK (fs : FS) (c : nat) : Prop :=
+  (forall d, files fs (FBlob d) = None) /\
+  (files fs FLayout = None \/ files fs FLayout = Some (mkFile [ALayout] false)) /\
+  (files fs FIndex = None \/ files fs FIndex = Some (mkFile [AIndex []] false)) /\
+  (forall p, is_temp p = true -> (c <= temp_ctr p)%nat -> files fs p = None).
+
+Lemma initok_new_ok fs c : InitOK fs c -> new_okb fs = true.
+Proof.
+  intros (_ & [L|L] & [X|X] & _); unfold new_okb, exists_file, layout_okb, read_index; rewrite L, X; reflexivity.
+Qed.
+
+Definition lay_part (fs : FS) (c : nat) : list mstep :=
+  if exists_file fs FLayout then [] else layout_steps false c.
+Definition idx_part (fs : FS) (c : nat) : list mstep :=
+  if exists_file fs FIndex then []
+  else [Create (FIndexTmp c); Write (FIndexTmp c) (AIndex []); Close (FIndexTmp c); Rename (FIndexTmp c) FIndex].
+
+(* one attempt, cut anywhere (or completed): still a directory in the middle of initialisation *)
+Lemma initok_piece fs c (t q : fpath) (a : atom) (piece : list mstep) k :
+  InitOK fs c -> is_temp t = true -> temp_ctr t = c -> (q = FLayout /\ a = ALayout \/ q = FIndex /\ a = AIndex []) ->
+  (piece = [] /\ files fs q <> None \/ piece = [Create t; Write t a; Close t; Rename t q] /\ files fs q = None) ->
+  let fs' := apply (firstn k piece) fs in
+  (forall d, files fs' (FBlob d) = None) /\
+  (files fs' FLayout = None \/ files fs' FLayout = Some (mkFile [ALayout] false)) /\
+  (files fs' FIndex = None \/ files fs' FIndex = Some (mkFile [AIndex []] false)) /\
+  (forall p, is_temp p = true -> (S c <= temp_ctr p)%nat -> files fs' p = None) /\
+  ((4 <= k)%nat -> files fs' q <> None) /\
+  (forall p, is_temp p = true -> (c <= temp_ctr p)%nat -> p <> t -> files fs' p = None) /\
+  ((4 <= k)%nat -> files fs' t = None) /\
+  (forall p, p <> q -> p <> t -> files fs' p = files fs p).
+Proof.
+  intros (B & L & X & T) Ht Hc Hq [[-> Hex]|[-> Hn]] fs'.
+  - unfold fs'. rewrite firstn_nil. cbn [apply fold_left].
+    repeat split; auto. intros p Hp Hk. apply T; [exact Hp|lia].
+    intros _. apply T; [exact Ht|lia].
+  - assert (Htq : t <> q) by (destruct Hq as [[-> _]|[-> _]]; intros ->; discriminate).
+    assert (Hnt : files fs t = None) by (apply T; [exact Ht|lia]).
+    assert (NT : forall p, is_temp p = false -> p <> t) by (intros p Hp ->; rewrite Ht in Hp; discriminate).
+    destruct (Nat.lt_ge_cases k 4) as [Hk|Hk].
+    + assert (F : forall p, p <> t -> files fs' p = files fs p) by (intros p Hp; now apply aw_prefix).
+      repeat split.
+      * intro d. rewrite F by (now apply NT). apply B.
+      * rewrite F by (now apply NT). exact L.
+      * rewrite F by (now apply NT). exact X.
+      * intros p Hp Hk'. rewrite F; [apply T; [exact Hp|lia]|]. intros ->. lia.
+      * lia.
+      * intros p Hp Hk' Hne. rewrite F by exact Hne. now apply T.
+      * lia.
+      * intros p _ Hne. now apply F.
+    + unfold fs'. rewrite aw_all by exact Hk.
+      destruct (aw_final t q a fs Htq Hnt) as (F1 & F2 & F3).
+      repeat split.
+      * intro d. rewrite F3; [apply B| |now apply NT]. destruct Hq as [[-> _]|[-> _]]; discriminate.
+      * destruct Hq as [[-> ->]|[-> _]]; [right; exact F1|]. rewrite F3; [exact L|discriminate|now apply NT].
+      * destruct Hq as [[-> _]|[-> ->]]; [|right; exact F1]. rewrite F3; [exact X|discriminate|now apply NT].
+      * intros p Hp Hk'. rewrite F3; [apply T; [exact Hp|lia]| |].
+        -- destruct Hq as [[-> _]|[-> _]]; intros ->; discriminate.
+        -- intros ->. lia.
+      * intros _. rewrite F1. discriminate.
+      * intros p Hp Hk' Hne. rewrite F3; [now apply T| |exact Hne].
+        destruct Hq as [[-> _]|[-> _]]; intros ->; discriminate.
+      * intros _. exact F2.
+      * exact F3.
+Qed.
+
+Lemma initok_files_eq fs fs' c : (forall p, files fs' p = files fs p) -> InitOK fs c -> InitOK fs' c.
+Proof.
+  intros E (B & L & X & T). unfold InitOK. rewrite !E. repeat split; auto.
+  - intro d. rewrite E. apply B.
+  - intros p Hp Hk. rewrite E. now apply T.
+Qed.
+
+Lemma mkdir_part_files fs k p :
+  files (apply (firstn k (if dirs fs DBlobs then [] else [Mkdir DBlobs])) fs) p = files fs p.
+Proof.
+  apply apply_frame. intros m Hin Ht. apply In_firstn in Hin.
+  destruct (dirs fs DBlobs); [destruct Hin|]. destruct Hin as [<-|[]]. exact Ht.
+Qed.
+
+(* one attempt of oci.New on a directory in the middle of initialisation, cut anywhere *)
+Theorem init_attempt fs c k :
+  InitOK fs c -> InitOK (apply (firstn k (new_steps shuffle false false fs c)) fs) (S c).
+Proof.
+  intro I0. rewrite new_steps_eq.
+  set (A := if dirs fs DBlobs then [] else [Mkdir DBlobs]).
+  set (Lp := if exists_file fs FLayout then [] else layout_steps false c).
+  set (Xp := if exists_file fs FIndex then []
+             else [Create (FIndexTmp c); Write (FIndexTmp c) (AIndex []); Close (FIndexTmp c);
+                   Rename (FIndexTmp c) FIndex]).
+  assert (Up : forall fs0 c0, InitOK fs0 c0 -> InitOK fs0 (S c0)).
+  { intros fs0 c0 (B & L & X & T). repeat split; auto. intros p Hp Hk. apply T; [exact Hp|lia]. }
+  destruct (firstn_app_cases k A (Lp ++ Xp)) as [[E _]|(k1 & E)]; rewrite E.
+  - apply Up. apply (initok_files_eq fs); [|exact I0]. intro p. apply mkdir_part_files.
+  - rewrite apply_app. set (fsA := apply A fs).
+    assert (FA : forall p, files fsA p = files fs p).
+    { intro p. unfold fsA, A. rewrite <- (firstn_all (if dirs fs DBlobs then [] else [Mkdir DBlobs])).
+      apply mkdir_part_files. }
+    assert (IA : InitOK fsA c) by (apply (initok_files_eq fs); assumption).
+    assert (HL : Lp = [] /\ files fsA FLayout <> None \/
+                 Lp = [Create (FLayoutTmp c); Write (FLayoutTmp c) ALayout; Close (FLayoutTmp c);
+                       Rename (FLayoutTmp c) FLayout] /\ files fsA FLayout = None).
+    { unfold Lp, exists_file. rewrite FA. destruct (files fs FLayout); [left; split; [reflexivity|discriminate]|right; now split]. }
+    assert (HX0 : forall fsL, files fsL FIndex = files fs FIndex ->
+                 Xp = [] /\ files fsL FIndex <> None \/
+                 Xp = [Create (FIndexTmp c); Write (FIndexTmp c) (AIndex []); Close (FIndexTmp c);
+                       Rename (FIndexTmp c) FIndex] /\ files fsL FIndex = None).
+    { intros fsL EL. unfold Xp, exists_file. rewrite EL.
+      destruct (files fs FIndex); [left; split; [reflexivity|discriminate]|right; now split]. }
+    destruct (firstn_app_cases k1 Lp Xp) as [[E1 Hle]|(k2 & E1)]; rewrite E1.
+    + (* inside the write of oci-layout *)
+      destruct (initok_piece fsA c (FLayoutTmp c) FLayout ALayout Lp k1 IA eq_refl eq_refl
+                  (or_introl (conj eq_refl eq_refl)) HL) as (P1 & P2 & P3 & P4 & _).
+      repeat split; assumption.
+    + (* oci-layout is in place; inside the write of index.json *)
+      rewrite apply_app. set (fsL := apply Lp fsA).
+      destruct (initok_piece fsA c (FLayoutTmp c) FLayout ALayout Lp (length Lp + 4) IA eq_refl eq_refl
+                  (or_introl (conj eq_refl eq_refl)) HL) as (P1 & P2 & P3 & _ & _ & P6 & P7 & P8).
+      rewrite firstn_all2 in P1, P2, P3, P6, P7, P8 by lia. fold fsL in P1, P2, P3, P6, P7, P8.
+      assert (IL : InitOK fsL c).
+      { repeat split; try assumption. intros p Hp Hk.
+        destruct (fpath_eqb p (FLayoutTmp c)) eqn:Ep.
+        - apply fpath_eqb_spec in Ep. subst p. apply P7. lia.
+        - apply P6; [exact Hp|exact Hk|]. intros ->. rewrite fpath_eqb_refl in Ep. discriminate. }
+      assert (EL : files fsL FIndex = files fs FIndex).
+      { rewrite P8 by discriminate. apply FA. }
+      destruct (initok_piece fsL c (FIndexTmp c) FIndex (AIndex []) Xp k2 IL eq_refl eq_refl
+                  (or_intror (conj eq_refl eq_refl)) (HX0 fsL EL)) as (Q1 & Q2 & Q3 & Q4 & _).
+      repeat split; assumption.
+Qed.
+
+(* ... and an attempt that runs to completion gives the initialised layout *)
+Theorem init_complete fs c :
+  InitOK fs c ->
+  let fs' := apply (new_steps shuffle false false fs c) fs in
+  files fs' FLayout = Some (mkFile [ALayout] false) /\
+  files fs' FIndex = Some (mkFile [AIndex []] false) /\
+  (forall d, files fs' (FBlob d) = None) /\ dirs fs' DBlobs = true.
+Proof.
+  intros I0 fs'.
+  (* the completed attempt is the cut at the end *)
+  pose proof (init_attempt fs c (length (new_steps shuffle false false fs c)) I0) as IE.
+  rewrite firstn_all in IE. fold fs' in IE. destruct IE as (B & _ & _ & _).
+  unfold fs'. rewrite new_steps_eq.
+  set (A := if dirs fs DBlobs then [] else [Mkdir DBlobs]).
+  set (Lp := if exists_file fs FLayout then [] else layout_steps false c).
+  set (Xp := if exists_file fs FIndex then []
+             else [Create (FIndexTmp c); Write (FIndexTmp c) (AIndex []); Close (FIndexTmp c);
+                   Rename (FIndexTmp c) FIndex]).
+  rewrite !apply_app. set (fsA := apply A fs).
+  assert (FA : forall p, files fsA p = files fs p).
+  { intro p. unfold fsA, A. rewrite <- (firstn_all (if dirs fs DBlobs then [] else [Mkdir DBlobs])).
+    apply mkdir_part_files. }
+  assert (DA : dirs fsA DBlobs = true).
+  { unfold fsA, A. destruct (dirs fs DBlobs) eqn:Ed; [exact Ed|reflexivity]. }
+  assert (IA : InitOK fsA c) by (apply (initok_files_eq fs); assumption).
+  assert (HL : Lp = [] /\ files fsA FLayout <> None \/
+               Lp = [Create (FLayoutTmp c); Write (FLayoutTmp c) ALayout; Close (FLayoutTmp c);
+                     Rename (FLayoutTmp c) FLayout] /\ files fsA FLayout = None).
+  { unfold Lp, exists_file. rewrite FA. destruct (files fs FLayout); [left; split; [reflexivity|discriminate]|right; now split]. }
+  destruct (initok_piece fsA c (FLayoutTmp c) FLayout ALayout Lp (length Lp + 4) IA eq_refl eq_refl
+              (or_introl (conj eq_refl eq_refl)) HL) as (P1 & P2 & P3 & _ & P5 & P6 & P7 & P8).
+  rewrite firstn_all2 in P1, P2, P3, P5, P6, P7, P8 by lia. set (fsL := apply Lp fsA) in *.
+  assert (IL : InitOK fsL c).
+  { repeat split; try assumption. intros p Hp Hk.
+    destruct (fpath_eqb p (FLayoutTmp c)) eqn:Ep.
+    - apply fpath_eqb_spec in Ep. subst p. apply P7. lia.
+    - apply P6; [exact Hp|exact Hk|]. intros ->. rewrite fpath_eqb_refl in Ep. discriminate. }
+  assert (HX : Xp = [] /\ files fsL FIndex <> None \/
+               Xp = [Create (FIndexTmp c); Write (FIndexTmp c) (AIndex []); Close (FIndexTmp c);
+                     Rename (FIndexTmp c) FIndex] /\ files fsL FIndex = None).
+  { unfold Xp, exists_file. assert (EL : files fsL FIndex = files fs FIndex) by (rewrite P8 by discriminate; apply FA).
+    rewrite EL. destruct (files fs FIndex); [left; split; [reflexivity|discriminate]|right; now split]. }
+  destruct (initok_piece fsL c (FIndexTmp c) FIndex (AIndex []) Xp (length Xp + 4) IL eq_refl eq_refl
+              (or_intror (conj eq_refl eq_refl)) HX) as (Q1 & Q2 & Q3 & _ & Q5 & _ & _ & Q8).
+  rewrite firstn_all2 in Q1, Q2, Q3, Q5, Q8 by lia. set (fsX := apply Xp fsL) in *.
+  assert (LL : files fsL FLayout <> None) by (apply P5; lia).
+  assert (XX : files fsX FIndex <> None) by (apply Q5; lia).
+  split; [|split; [|split]].
+  - rewrite Q8 by discriminate. destruct P2 as [P2|P2]; [contradiction|exact P2].
+  - destruct Q3 as [Q3|Q3]; [contradiction|exact Q3].
+  - exact Q1.
+  - (* directories: only Mkdir changes them *)
+    assert (DD : forall ms fs0, (forall m, In m ms -> forall d, m <> Mkdir d) -> dirs (apply ms fs0) = dirs fs0).
+    { induction ms as [|m ms IH]; intros fs0 Hm; [reflexivity|].
+      rewrite apply_cons, IH by (intros m' Hin; apply Hm; now right).
+      assert (Hm0 := Hm m (or_introl eq_refl)).
+      destruct m; cbn; try reflexivity; try (destruct (files fs0 _); reflexivity).
+      exfalso. exact (Hm0 d eq_refl). }
+    unfold fsX, fsL. rewrite !DD; [exact DA| |].
+    + intros m Hin d. destruct HL as [[-> _]|[-> _]]; [destruct Hin|].
+      destruct Hin as [<-|[<-|[<-|[<-|[]]]]]; discriminate.
+    + intros m Hin d. destruct HX as [[-> _]|[-> _]]; [destruct Hin|].
+      destruct Hin as [<-|[<-|[<-|[<-|[]]]]]; discriminate.
+Qed.
+
+(* any number of interrupted attempts: the directory never makes oci.New fail, and the first
+   attempt that completes gives the initialised layout *)
+Lemma initok_empty : InitOK empty_fs 0.
+Proof. repeat split; auto. Qed.
+
+Theorem init_restartable_many ks :
+  let fs := fst (init_attempts shuffle false false ks empty_fs 0) in
+  let c := snd (init_attempts shuffle false false ks empty_fs 0) in
+  let fs' := apply (new_steps shuffle false false fs c) fs in
+  new_okb fs = true /\
+  files fs' FLayout = Some (mkFile [ALayout] false) /\
+  files fs' FIndex = Some (mkFile [AIndex []] false) /\
+  (forall d, files fs' (FBlob d) = None) /\ dirs fs' DBlobs = true.
+Proof.
+  assert (G : forall ks fs c, InitOK fs c ->
+              InitOK (fst (init_attempts shuffle false false ks fs c)) (snd (init_attempts shuffle false false ks fs c))).
+  { induction ks0 as [|k ks0 IH]; intros fs c I0; [exact I0|].
+    cbn [init_attempts]. apply IH. now apply init_attempt. }
+  intros fs c fs'. pose proof (G ks empty_fs 0%nat initok_empty) as IK. fold fs c in IK.
+  split; [exact (initok_new_ok fs c IK)|]. exact (init_complete fs c IK).
+Qed.
+
 (* the first New is cut anywhere; the second New runs to completion *)
 Theorem init_restartable k :
   let fsk := apply (firstn k (new_steps shuffle false false empty_fs 0)) empty_fs in
@@ -2194,4 +2445,17 @@ Theorem api_crash_safe_src :
       (fsk = sfs (run H shuffle src_inplace src_unlink_first true os s) /\
        layout_ok fsk /\ blob_ok H fsk /\ index_ok fsk).
 Proof. rewrite src_inplace_false, src_unlink_first_false. exact api_crash_safe. Qed.
+
+Theorem init_restartable_many_src :
+  forall (shuffle : nat -> list entry -> list entry),
+    (forall c l e, In e (shuffle c l) <-> In e l) ->
+    forall (ks : list nat),
+      let fs := fst (init_attempts shuffle src_inplace src_layout_inplace ks empty_fs 0) in
+      let c := snd (init_attempts shuffle src_inplace src_layout_inplace ks empty_fs 0) in
+      let fs' := apply (new_steps shuffle src_inplace src_layout_inplace fs c) fs in
+      new_okb fs = true /\
+      files fs' FLayout = Some (mkFile [ALayout] false) /\
+      files fs' FIndex = Some (mkFile [AIndex []] false) /\
+      (forall d, files fs' (FBlob d) = None) /\ dirs fs' DBlobs = true.
+Proof. rewrite src_inplace_false, src_layout_inplace_false. exact init_restartable_many. Qed.
 
